@@ -346,11 +346,21 @@ package nutsdb
 //@        db.SetIdx == old(db.SetIdx) && db.ListIdx == old(db.ListIdx) && db.SortedSetIdx == old(db.SortedSetIdx) && db.isMerging == old(db.isMerging) &&
 //@        db.closed == old(db.closed) && db.KeyCount == old(db.KeyCount)
 
+//@ func NewFileIORWManager
+//@   assumed opens or creates the segment file through the OS and extends it to the capacity
+//@   ensures result1 == nil ==> result0 != nil && fresh(result0)
+//@   ensures result1 != nil ==> result0 == nil
+//@   modifies nothing
+//@ func NewMMapRWManager
+//@   assumed opens or creates the segment file through the OS, extends it to the capacity and maps it
+//@   ensures result1 == nil ==> result0 != nil && fresh(result0)
+//@   ensures result1 != nil ==> result0 == nil
+//@   modifies nothing
 //@ func NewDataFile
-//@   assumed opens or creates the segment file through the OS; not verified
-//@   ensures err == nil ==> fresh(df) && df.rwManager != nil && df.writeOff == 0 && df.ActualSize == 0
+//@   ensures[C20] err == nil ==> fresh(df) && df.rwManager != nil && df.writeOff == 0 && df.ActualSize == 0
 //@   ensures err != nil ==> df == nil
 //@   modifies nothing
+//@   safety[C20] panics
 
 // The breadth-first walk of WriteNodes goes through the package-level variable `queue`, which every tree of every
 // database in the process shares: it may only be touched under the package-level mutex (ghost queueLocked).
